@@ -176,7 +176,7 @@ def read_iotrace(path):
     return ev
 
 
-def traced(cmd, watch, log, env=None, timeout=300, fail_at=None):
+def traced(cmd, watch, log, env=None, timeout=300, fail_at=None, kill_at=None, input=None):
     """run cmd with the write-trace shim watching file [watch]"""
     so = build_iotrace()
     if os.path.exists(log):
@@ -185,7 +185,9 @@ def traced(cmd, watch, log, env=None, timeout=300, fail_at=None):
     e.update({"LD_PRELOAD": so, "IOTRACE_PATH": watch, "IOTRACE_LOG": log})
     if fail_at:
         e["IOTRACE_FAIL_AT"] = str(fail_at)
-    rc, out = sh(cmd, env=e, timeout=timeout)
+    if kill_at:
+        e["IOTRACE_KILL_AT"] = str(kill_at)
+    rc, out = sh(cmd, env=e, timeout=timeout, input=input)
     return rc, out, read_iotrace(log)
 
 
